@@ -457,3 +457,42 @@ Definition wf_service (s : service) : bool :=
 (** Elements of a comma-joined field can be recovered when none of them
     contains a comma. *)
 Definition comma_free (s : str) : bool := negb (contains_byte s comma).
+
+(** * Specification vocabulary (used in the statements of props/C20.v) *)
+
+(** The value of a digit string, positionally. *)
+Fixpoint pos_value (ds : str) : Z :=
+  match ds with
+  | [] => 0
+  | c :: r => digit_val c * 10 ^ Z.of_nat (length r) + pos_value r
+  end.
+
+Definition signed (neg : bool) (n : Z) : Z := if neg then - n else n.
+
+(** The three shapes of an accepted string. *)
+Inductive int_syntax : str -> bool -> str -> Prop :=
+| syn_plain : forall ds, int_syntax ds false ds
+| syn_plus : forall ds, int_syntax (plus_sign :: ds) false ds
+| syn_minus : forall ds, int_syntax (minus_sign :: ds) true ds.
+
+Definition or_default {A} (parse : str -> option A) (def : A) (s : str) : A :=
+  match parse s with Some v => v | None => def end.
+
+(** The four clauses of the statement, for a value [v] obtained with [parse]. *)
+Definition precedence {A} (parse : str -> option A) (e : env) (key : str)
+           (flag : option A) (def : A) (v : A) : Prop :=
+  (forall f, flag = Some f -> v = f) /\
+  (flag = None -> forall s, lookup_env e (env_prefix ++ key) = Some s -> v = or_default parse def s) /\
+  (flag = None -> lookup_env e (env_prefix ++ key) = None ->
+     forall s, lookup_env e key = Some s -> v = or_default parse def s) /\
+  (flag = None -> lookup_env e (env_prefix ++ key) = None -> lookup_env e key = None -> v = def).
+
+Definition is_some {A} (o : option A) : bool := match o with Some _ => true | None => false end.
+
+Definition name_le (a b : desc) : Prop := str_leb (d_name a) (d_name b) = true.
+
+Fixpoint visible_len (ws : list nat) (cells : row) : nat :=
+  match cells with
+  | [] => 0%nat
+  | c :: r => (length c + (hd 0 ws - length c) + 2 + visible_len (tl ws) r)%nat
+  end.
